@@ -1,12 +1,22 @@
-FMTS = ['html', 'html_br', 'latex', 'odf', 'odf_br', 'opml', 'itmz']
-UNIT = {0: 'repo:html.c', 1: 'repo:html.c', 2: 'repo:latex.c', 3: 'repo:opendocument-content.c', 4: 'repo:opendocument-content.c', 5: 'repo:opml.c', 6: 'repo:itmz.c'}
-MAXSEQ = {0: 6, 1: 6, 2: 17, 3: 19, 4: 19, 5: 6, 6: 6}
+FMTS = ['html', 'html_br', 'latex', 'odf', 'odf_br', 'opml', 'itmz', 'html_obfuscated']
+UNIT = {0: 'repo:html.c', 1: 'repo:html.c', 2: 'repo:latex.c', 3: 'repo:opendocument-content.c', 4: 'repo:opendocument-content.c', 5: 'repo:opml.c', 6: 'repo:itmz.c', 7: 'repo:html.c'}
+MAXSEQ = {0: 6, 1: 6, 2: 17, 3: 19, 4: 19, 5: 6, 6: 6, 7: 6}
+
+def obfchar(prefix):
+    return dict(name=prefix + '_html_obfuscated_char', src='esc/obfchar.c', defs=dict(DS_CAP=12, DS_NO_PRINTF=1),
+                units=['repo:html.c', 'repo:char.c', 'common/ds_model.c'], unwind=14, timeout=600, mem_gb=4, functional=True,
+                bounds='every byte value x every generator draw (exhaustive over the function\'s inputs)',
+                desc='mmd_print_char_html(obfuscate): 7-bit characters become a reference to exactly that character, other bytes pass through unchanged')
 
 def escape(prefix, fmt, N, tier, u8=False):
+    if fmt == 7:
+        return obfchar(prefix)
     cap = MAXSEQ[fmt] * N + 4
     defs = dict(FMT=fmt, N=N, DS_CAP=cap)
     if u8:
         defs['U8'] = 1
+    if fmt == 7:
+        defs['DS_NO_PRINTF'] = 1
     units = [UNIT[fmt], 'repo:char.c', 'common/ds_model.c']
     if fmt >= 5:
         units.append(dict(src='repo:xml.c', cflags=['-include', 'vh_libc.h']))
